@@ -18,18 +18,20 @@ Open Scope Z_scope.
 (* 1. WRITE SIDE                                                                         *)
 (* ------------------------------------------------------------------------------------ *)
 
-(* the packed stream of a session = E_n(... E_1(concatenation of the members' bytes)), for
-   every block size <> 0, every read schedule of the sources, any number of members *)
+(* the packed stream of a session is an encoding by stage n of (... an encoding by stage 1 of
+   (the concatenation of the members' bytes)), for every block size <> 0, every read schedule of
+   the sources, any number of members.  E s0 x y reads "y is an encoding of x by a stage
+   created in state s0" (a relation: what a real codec emits may depend on the chunking) *)
 Theorem C01_compress_chain :
   forall (cst : Type) (cstep : cst -> bytes -> cst * bytes) (cflush : cst -> cst * bytes)
-         (E : cst -> bytes -> bytes) (wf : cst -> Prop),
+         (E : cst -> bytes -> bytes -> Prop) (wf : cst -> Prop),
     (forall (s0 s : cst) (cin cout : bytes),
-        wf s0 -> ereach cstep s0 s cin cout -> cout ++ snd (cflush s) = E s0 cin) ->
+        wf s0 -> ereach cstep s0 s cin cout -> E s0 cin (cout ++ snd (cflush s))) ->
     forall (s0s : list cst) (bsz : Z) (fuel : nat) (ms : list (bytes * list nat))
            (st : cstate cst) (infos : list (Z * Z * Z)) (n : Z),
       Forall wf s0s -> bsz <> 0 ->
       write_session cstep cflush fuel (cinit s0s bsz) ms = Ok (st, infos, n) ->
-      cout st = Echain E s0s (concat (map fst ms)).
+      exists ins, Echain E s0s (concat (map fst ms)) ins (cout st).
 Proof. exact compress_chain. Qed.
 Print Assumptions C01_compress_chain.
 
@@ -37,9 +39,9 @@ Print Assumptions C01_compress_chain.
    packed stream; per stage the length of its input; foutsizes + flush add up to the pack size *)
 Theorem C01_sizes_and_crcs :
   forall (cst : Type) (cstep : cst -> bytes -> cst * bytes) (cflush : cst -> cst * bytes)
-         (E : cst -> bytes -> bytes) (wf : cst -> Prop),
+         (E : cst -> bytes -> bytes -> Prop) (wf : cst -> Prop),
     (forall (s0 s : cst) (cin cout : bytes),
-        wf s0 -> ereach cstep s0 s cin cout -> cout ++ snd (cflush s) = E s0 cin) ->
+        wf s0 -> ereach cstep s0 s cin cout -> E s0 cin (cout ++ snd (cflush s))) ->
     forall (s0s : list cst) (bsz : Z) (fuel : nat) (ms : list (bytes * list nat))
            (st : cstate cst) (infos : list (Z * Z * Z)) (n : Z),
       Forall wf s0s -> bsz <> 0 ->
@@ -49,16 +51,16 @@ Theorem C01_sizes_and_crcs :
       cpacksize st = zlen (cout st) /\
       cdigest st = crc32 (cout st) /\
       zsum (map info_out infos) + n = cpacksize st /\
-      cunpack st = map zlen (Einputs E s0s (concat (map fst ms))).
+      exists ins, Echain E s0s (concat (map fst ms)) ins (cout st) /\ cunpack st = map zlen ins.
 Proof. exact sizes_and_crcs. Qed.
 Print Assumptions C01_sizes_and_crcs.
 
 (* the session raises nothing (no IndexError on _unpacksizes) and its block loops terminate *)
 Theorem C01_write_session_total :
   forall (cst : Type) (cstep : cst -> bytes -> cst * bytes) (cflush : cst -> cst * bytes)
-         (E : cst -> bytes -> bytes) (wf : cst -> Prop),
+         (E : cst -> bytes -> bytes -> Prop) (wf : cst -> Prop),
     (forall (s0 s : cst) (cin cout : bytes),
-        wf s0 -> ereach cstep s0 s cin cout -> cout ++ snd (cflush s) = E s0 cin) ->
+        wf s0 -> ereach cstep s0 s cin cout -> E s0 cin (cout ++ snd (cflush s))) ->
     forall (s0s : list cst) (bsz : Z) (fuel : nat) (ms : list (bytes * list nat)),
       Forall wf s0s -> bsz <> 0 ->
       Forall (fun m : bytes * list nat => (length (fst m) < fuel)%nat) ms ->
@@ -185,9 +187,9 @@ Print Assumptions C01_extract_members.
    every read schedule on either side, every chunk limit, any bytes after the packed stream. *)
 Theorem C01_roundtrip_chain :
   forall (cst : Type) (cstep : cst -> bytes -> cst * bytes) (cflush : cst -> cst * bytes)
-         (E : cst -> bytes -> bytes) (wf : cst -> Prop),
+         (E : cst -> bytes -> bytes -> Prop) (wf : cst -> Prop),
     (forall (s0 s : cst) (cin cout : bytes),
-        wf s0 -> ereach cstep s0 s cin cout -> cout ++ snd (cflush s) = E s0 cin) ->
+        wf s0 -> ereach cstep s0 s cin cout -> E s0 cin (cout ++ snd (cflush s))) ->
     forall (dst : Type) (dstep : dst -> bytes -> Z -> dst * bytes) (D : dst -> bytes -> bytes),
       (forall (s0 : dst) (a b : bytes), prefix (D s0 a) (D s0 (a ++ b))) ->
       (forall (s0 s : dst) (cin cout : bytes), reach dstep s0 s cin cout -> prefix cout (D s0 cin)) ->
@@ -196,7 +198,7 @@ Theorem C01_roundtrip_chain :
              (trailer : bytes) (fuelr : nat) (mb : Z) (scheds : list (list nat)) (ds : dstate dst)
              (outs : list bytes),
         Forall wf s0s ->
-        Forall2 (fun s d => forall x, prefix x (D d (E s x))) s0s (rev d0s) ->
+        Forall2 (fun s d => forall x y, E s x y -> prefix x (D d y)) s0s (rev d0s) ->
         bsz <> 0 -> 0 < mb ->
         write_session cstep cflush fuel (cinit s0s bsz) ms = Ok (cs, infos, n) ->
         extract_members dstep fuelr (init_state d0s us (cpacksize cs) bsr (cout cs ++ trailer))
@@ -207,9 +209,9 @@ Print Assumptions C01_roundtrip_chain.
 
 Theorem C01_roundtrip_single_stage :
   forall (cst : Type) (cstep : cst -> bytes -> cst * bytes) (cflush : cst -> cst * bytes)
-         (E : cst -> bytes -> bytes) (wf : cst -> Prop),
+         (E : cst -> bytes -> bytes -> Prop) (wf : cst -> Prop),
     (forall (s0 s : cst) (cin cout : bytes),
-        wf s0 -> ereach cstep s0 s cin cout -> cout ++ snd (cflush s) = E s0 cin) ->
+        wf s0 -> ereach cstep s0 s cin cout -> E s0 cin (cout ++ snd (cflush s))) ->
     forall (dst : Type) (dstep : dst -> bytes -> Z -> dst * bytes) (D : dst -> bytes -> bytes),
       (forall (s0 : dst) (a b : bytes), prefix (D s0 a) (D s0 (a ++ b))) ->
       (forall (s0 s : dst) (cin cout : bytes), reach dstep s0 s cin cout -> prefix cout (D s0 cin)) ->
@@ -217,7 +219,7 @@ Theorem C01_roundtrip_single_stage :
              (cs : cstate cst) (infos : list (Z * Z * Z)) (n : Z) (us : list Z) (bsr : Z)
              (trailer : bytes) (fuelr : nat) (mb : Z) (scheds : list (list nat)) (ds : dstate dst)
              (outs : list bytes),
-        wf s0 -> (forall x : bytes, prefix x (D d0 (E s0 x))) -> bsz <> 0 -> 0 < mb ->
+        wf s0 -> (forall x y : bytes, E s0 x y -> prefix x (D d0 y)) -> bsz <> 0 -> 0 < mb ->
         write_session cstep cflush fuel (cinit [s0] bsz) ms = Ok (cs, infos, n) ->
         extract_members dstep fuelr (init_state [d0] us (cpacksize cs) bsr (cout cs ++ trailer))
                         (map info_in infos) mb scheds = Ok (ds, outs) ->
@@ -372,6 +374,16 @@ Theorem C01_toy_roundtrip_chain :
     outs = map fst ms /\ map crc32 outs = map info_crc infos.
 Proof. exact toy_roundtrip_chain. Qed.
 Print Assumptions C01_toy_roundtrip_chain.
+
+(* for encoders that are functions of their input the packed stream is the composition *)
+Theorem C01_toy_compress_chain :
+  forall (s0s : list toy_state) (bsz : Z) (fuel : nat) (ms : list (bytes * list nat))
+         (st : cstate toy_state) (infos : list (Z * Z * Z)) (n : Z),
+    bsz <> 0 ->
+    write_session toy_cstep toy_cflush fuel (cinit s0s bsz) ms = Ok (st, infos, n) ->
+    cout st = Echainf toy_E s0s (concat (map fst ms)).
+Proof. exact toy_compress_chain. Qed.
+Print Assumptions C01_toy_compress_chain.
 
 (* both sides return on a concrete session: [lagging(2); padder(4)], block size 3, a short
    read; read back through [copy; lagging(1)], block size 2, chunk limit 3, a short read *)
